@@ -7,6 +7,8 @@ import (
 	"sync"
 	"sync/atomic"
 
+	"github.com/crate-crypto/go-ipa/ipa"
+
 	"verif/mon"
 )
 
@@ -15,7 +17,7 @@ func init() {
 		ID:    "C12",
 		Title: "A shared configuration can be used concurrently without interference",
 		Rule: "race-detector build; one shared IPAConfig; a seed-determined list of operation instances of 14 kinds (Commit, CreateMultiProof with n up to 64 > W, CheckMultiProof incl. invalid statements, Create+CheckIPAProof, MultiScalar/MultiExp with split paths, element operations, batch helpers, transcripts, fr functions using the shared big.Int pool, point codecs, fp square roots, parallel.Execute, GenerateRandomPoints, a second NewIPASettings) " +
-			"is first executed sequentially, then by G in {8,32,64} goroutines (quick {8,32}) on private argument objects, several goroutines running the same instance at the same time; events {goroutine, instance, call/return sequence numbers from one atomic counter, output digest} are recorded at the client boundary; " +
+			"is executed by G in {8,32,64} goroutines (quick {8,32}) on private argument objects sharing one still-cold configuration, and then alone on a second, fresh configuration; several goroutines running the same instance at the same time; events {goroutine, instance, call/return sequence numbers from one atomic counter, output digest} are recorded at the client boundary; " +
 			"oracles: every output equals the sequential output, zero race reports, configuration and package-constant fingerprints (incl. all 350 MB of tables) unchanged, bounded progress; GOMAXPROCS {1,2,4,16} x NumCPU {2,4,16} with H7 delays; a class is (operation kind, G, GOMAXPROCS, NumCPU); non-trivial = executed while at least one other operation was in flight",
 		HangIsViolation:  true,
 		CaseLimitS:       map[string]int{"quick": 600, "thorough": 2400},
@@ -62,17 +64,17 @@ type c12event struct {
 }
 
 func runC12(c *mon.Ctx) {
-	env := GetEnv()
+	env := GetEnv() // config A: stays cold until the concurrent phase (lazily initialised state is part of what is monitored)
 	w, gmp := runtime.NumCPU(), runtime.GOMAXPROCS(0)
 	mode := 1
 	fmt.Sscan(c.Config["sched"], &mode)
 	mon.InstallSched(mode, c.Seed+int64(c.Shard))
-	rng := c.Rand(fmt.Sprintf("c12/%d", c.Shard))
-	o := newOpCtx(env, c.Seed*1000+int64(c.Shard), rng)
+	o := newOpCtx(env, c.Seed*1000+int64(c.Shard), c.Rand(fmt.Sprintf("c12/%d", c.Shard)))
 
 	// instance list: every cheap kind several times, expensive kinds a few times
 	perKind := c.Pick(5, 10)
 	var insts []c12inst
+	haveNewSettings := false
 	for kind := 0; kind < numOpKinds; kind++ {
 		n := perKind
 		switch kind {
@@ -81,6 +83,7 @@ func runC12(c *mon.Ctx) {
 			if gmp < 4 && !c.Thorough() {
 				n = 0 // ~10 s per construction under the race detector with one P: only in the wider quick children
 			}
+			haveNewSettings = n > 0
 		case opProve, opVerify, opIPA:
 			n = c.Pick(4, 8)
 		}
@@ -91,34 +94,17 @@ func runC12(c *mon.Ctx) {
 	fp0, tf0 := cheapFingerprint(env.Conf), tableFingerprint(env.Conf)
 	c.Count("fingerprint_checks", 1)
 
-	expected := map[c12inst]string{}
-	c.Case("sequential", func() {
-		for _, in := range insts {
-			expected[in] = o.exec(in.kind, in.k)
-			c.Eval(fmt.Sprintf("sequential|%s", opNames[in.kind]), false)
-		}
-		// determinism of the sequential baseline itself
-		for _, in := range insts {
-			if in.kind == opNewSettings || in.k > 0 {
-				continue
-			}
-			if d := o.exec(in.kind, in.k); d != expected[in] {
-				c.Fail("sequential-not-deterministic/"+opNames[in.kind], "the same operation instance returned two different outputs when executed alone twice", nil)
-			}
-		}
-	})
-	if len(expected) != len(insts) {
-		return
-	}
+	// ---- concurrent phase first, on the cold shared configuration ----
 	mon.SchedTake()
 	var seq int64
 	rounds := []int{8, 32}
 	if c.Thorough() {
 		rounds = []int{8, 32, 64}
 	}
+	recorded := make([][]c12event, len(rounds))
 	for round, G := range rounds {
 		id := fmt.Sprintf("concurrent/G=%d", G)
-		G := G
+		round, G := round, G
 		c.Case(id, func() {
 			events := make([][]c12event, G)
 			var wg sync.WaitGroup
@@ -129,7 +115,12 @@ func runC12(c *mon.Ctx) {
 				// goroutine g runs a seed-determined multiset of instances; cheap kinds dominate, so several
 				// goroutines execute the same instance at the same time
 				nOps := c.Pick(3, 6) + r.Intn(c.Pick(4, 8))
-				plan := make([]c12inst, 0, nOps)
+				plan := make([]c12inst, 0, nOps+1)
+				if round == 0 {
+					// everybody starts with one of two proof instances: the first use of every lazily initialised
+					// piece of the cold configuration happens in several goroutines at once
+					plan = append(plan, c12inst{opProve, g % 2})
+				}
 				for i := 0; i < nOps; i++ {
 					in := insts[r.Intn(len(insts))]
 					if in.kind == opNewSettings {
@@ -137,11 +128,11 @@ func runC12(c *mon.Ctx) {
 					}
 					plan = append(plan, in)
 				}
-				if _, have := expected[c12inst{opNewSettings, 0}]; have && g == 0 && (round == 0 || c.Thorough()) {
-					plan[0] = c12inst{opNewSettings, 0}
+				if haveNewSettings && g == 0 && (round == 0 || c.Thorough()) {
+					plan[len(plan)-1] = c12inst{opNewSettings, 0}
 				}
 				if g == 1 {
-					plan[0] = c12inst{opCRS, 0}
+					plan[len(plan)-1] = c12inst{opCRS, 0}
 				}
 				wg.Add(1)
 				go func() {
@@ -159,11 +150,59 @@ func runC12(c *mon.Ctx) {
 			close(start)
 			wg.Wait()
 			c.RecordOrders("multiproof.group.send", "msm.split.done", "msm.chunk.send", "parallel.task.start")
-			// ---- offline checks over the recorded events ----
-			var all []c12event
 			for g := range events {
-				all = append(all, events[g]...)
+				recorded[round] = append(recorded[round], events[g]...)
 			}
+			if fp := cheapFingerprint(env.Conf); fp != fp0 {
+				c.Fail("configuration-changed", "the shared configuration / package constants changed during concurrent use", map[string]string{"before": fp0, "after": fp})
+			}
+			c.Count("fingerprint_checks", 1)
+		})
+	}
+
+	// ---- the same instances executed alone, on a second, fresh configuration ----
+	expected := map[c12inst]string{}
+	c.Case("sequential", func() {
+		confB, err := ipa.NewIPASettings()
+		if err != nil {
+			c.Note("second NewIPASettings failed: " + err.Error())
+			return
+		}
+		oB := newOpCtx(&Env{Conf: confB, Ref: env.Ref}, c.Seed*1000+int64(c.Shard), c.Rand(fmt.Sprintf("c12/%d", c.Shard)))
+		need := map[c12inst]bool{}
+		for _, in := range insts {
+			need[in] = true
+		}
+		for _, evs := range recorded {
+			for _, ev := range evs {
+				need[ev.inst] = true
+			}
+		}
+		for in := range need {
+			expected[in] = oB.exec(in.kind, in.k)
+			c.Eval(fmt.Sprintf("sequential|%s", opNames[in.kind]), false)
+		}
+		// determinism of the sequential baseline itself, and agreement of the two configurations when used alone
+		for _, in := range insts {
+			if in.kind == opNewSettings || in.k > 0 {
+				continue
+			}
+			if d := oB.exec(in.kind, in.k); d != expected[in] {
+				c.Fail("sequential-not-deterministic/"+opNames[in.kind], "the same operation instance returned two different outputs when executed alone twice", nil)
+			}
+		}
+	})
+	if len(expected) == 0 {
+		return
+	}
+
+	// ---- offline checks over the recorded events ----
+	for round, G := range rounds {
+		all := recorded[round]
+		if len(all) == 0 {
+			continue
+		}
+		c.Case(fmt.Sprintf("compare/G=%d", G), func() {
 			maxOverlap := 0
 			for i, ev := range all {
 				overlap := 0
@@ -199,10 +238,6 @@ func runC12(c *mon.Ctx) {
 					return s
 				}())})
 			}
-			if fp := cheapFingerprint(env.Conf); fp != fp0 {
-				c.Fail("configuration-changed", "the shared configuration / package constants changed during concurrent use", map[string]string{"before": fp0, "after": fp})
-			}
-			c.Count("fingerprint_checks", 1)
 		})
 	}
 	c.Case("final-fingerprint", func() {
@@ -210,13 +245,13 @@ func runC12(c *mon.Ctx) {
 			c.Fail("tables-changed", "the precomputed MSM tables changed during concurrent use", map[string]string{"before": tf0, "after": tf})
 		}
 		c.Count("fingerprint_checks", 1)
-		// after the storm every instance still returns the sequential output
+		// after the storm every instance still returns the sequential output on the shared configuration
 		for _, in := range insts {
 			if in.kind == opNewSettings || in.k > 1 {
 				continue
 			}
 			if d := o.exec(in.kind, in.k); d != expected[in] {
-				c.Fail("output-changed-after-concurrent-use/"+opNames[in.kind], "an operation returns a different result after the concurrent phase than before it", nil)
+				c.Fail("output-changed-after-concurrent-use/"+opNames[in.kind], "an operation returns a different result on the shared configuration after the concurrent phase than on a fresh configuration", nil)
 			}
 		}
 	})
